@@ -299,6 +299,10 @@ def run_render_seq(seq, ncls):
 # ---------------------------------------------------------------------------
 
 
+# coverage-guided stage (atheris drives these Hypothesis shards, see vf/run.py): {tier: {shard kind: (shards, executions)}}
+CG = {'thorough': {'hyp_ct': (4, 8000)}}
+
+
 def plan(tier, seed, scale=1.0):
     b = BOUNDS[tier]
     specs = []
